@@ -9,7 +9,7 @@
 (*     error variant) and replayed against build_operator_tree as a        *)
 (*     diagnostic (never part of a verdict).                               *)
 (***************************************************************************)
-EXTENDS TreeBuilder, Tokenizer
+EXTENDS TreeBuilder, Tokenizer, Api
 CONSTANTS MaxLen, AlphaName
 VARIABLE s
 
@@ -26,17 +26,25 @@ SpecialSources == IF AlphaName # "num" THEN {} ELSE
 Init == s = <<>>
 Next == Len(s) < MaxLen /\ \E c \in Alphabet : s' = Append(s, c)
 
-SpecTheorems == /\ TokRefines(s) /\ TokDeviationIsKF1(s)
-                /\ (s = <<>> => \A w \in SpecialSources : TokRefines(w) /\ TokDeviationIsKF1(w))
-
 ImplErr(e) == IF e = "UnterminatedComment" THEN "CustomMessage" ELSE e
 Pipeline(src) ==
   LET tz == Tokenize(src) IN
   IF ~tz.ok THEN [ok |-> FALSE, tree |-> NEmpty, err |-> ImplErr(tz.err)] ELSE ImplBuild(tz.toks)
+\* composition: the transcribed pipeline (text -> partial tokens -> tokens -> root stack -> tree) refines the normative
+\* precompilation Build (Lexer + Grammar) wherever the documentation fixes the meaning of the text
+PipelineRefines(src) ==
+  LET b == Build(src)
+      p == Pipeline(src) IN
+  /\ (b.class = "LEXERR" => ~p.ok)
+  /\ (b.class = "WF" /\ ~b.open => p.ok /\ StripText(NormRoot(p.tree)) = StripText(b.tree))
+  /\ (b.class = "IF" /\ ~b.open => ~p.ok \/ Deficient(p.tree))
 Case(src) ==
   LET b == Pipeline(src) IN
   [kind |-> "impl", check |-> "impl_model", src |-> src, toks |-> <<>>, ok |-> b.ok,
    tree |-> IF b.ok THEN JTree(NormRoot(b.tree)) ELSE JTree(NEmpty), err |-> b.err]
+SpecTheorems == /\ TokRefines(s) /\ TokDeviationIsKF1(s) /\ PipelineRefines(s)
+                /\ (s = <<>> => \A w \in SpecialSources : TokRefines(w) /\ TokDeviationIsKF1(w) /\ PipelineRefines(w))
+
 Emit == /\ PrintT(ToJson(Case(s)))
         /\ (s = <<>> => \A w \in SpecialSources : PrintT(ToJson(Case(w))))
 =============================================================================
